@@ -304,7 +304,12 @@ def run_case(case):
         out.label("two-event-types-per-producer")
     if case.get("default_info"):
         out.label("default-stream-of-StreamInformation")
-    _add_initial(h, n_init)
+    # In half of the cases with a prior history the initial methods are registered only AFTER the first
+    # initialize(): they belong to the replications initialised from then on (the one under test included)
+    import zlib
+    late = n_init and pr["kind"] != "none" and zlib.crc32(repr(sorted(case["seeds"])).encode()) % 2 == 0
+    if not late:
+        _add_initial(h, n_init)
     left_pending = left_stats = False
     try:
         kind = pr["kind"]
@@ -314,6 +319,9 @@ def run_case(case):
                 rep0["warmup"] = prog["rep"]["length"]      # warm-up at the very end
                 out.label("prior-other-replication")
             h.initialize(rep0)
+            if late:
+                _add_initial(h, n_init)
+                out.label("initial-methods-registered-after-the-first-initialize")
             if kind == "steps":
                 for _ in range(pr["k"]):
                     h.run_piece(["step"])
